@@ -216,3 +216,26 @@ def handleSeed (v : Variant) (n idx mem : String) : String :=
     "ok " ++ ",".intercalate (res.map fun row => match row.head? with | some s => toString s | none => "?")
 
 end Nitime.C15.Seed
+
+namespace Nitime.C15.Shift
+/-! `SpectralAnalyzer.spectrum_fourier`, complex branch: `f[k] = (k - n//2) * Fs / n` and `fftshift(fft(data))` on the time axis -/
+
+/-- `np.fft.fftshift(X)[k] = X[fftshiftSrc n k]` (roll by `n/2`) -/
+def fftshiftSrc (n k : Nat) : Nat := (k + (n - n / 2)) % n
+/-- `np.fft.ifftshift(X)[k] = X[ifftshiftSrc n k]` (roll by `-(n/2)`) -/
+def ifftshiftSrc (n k : Nat) : Nat := (k + n / 2) % n
+/-- the DFT bin that the label `f[k] = (k - n//2) * Fs / n` names: `(k - n//2) mod n` -/
+def labelBin (n k : Nat) : Nat := (((k : Int) - ((n / 2 : Nat) : Int)) % (n : Int)).toNat
+
+/-- is the fftshift reading vouched for by the source? (GENERATED: every shift call of the analyzers is `fftshift`) -/
+def codeVouched : Bool :=
+  Nitime.Generated.AnalyzerState.shiftCalls.all fun c => c.2 == "fftshift"
+
+/-- `shiftsrc <n>`: for every output position the DFT bin it shows -/
+def handleShift (n : String) : String :=
+  if !codeVouched then "err spectrum-shift-not-fftshift" else
+  match n.toNat? with
+  | none => "err parse"
+  | some n => "ok " ++ ",".intercalate ((List.range n).map fun k => toString (fftshiftSrc n k))
+
+end Nitime.C15.Shift
